@@ -34,6 +34,10 @@ def gen_key():
     need(lit("kd.getMatchPattern()->getMatchScore( testNode, resolver, executionContext); if (score != XPath::eMatchScoreNone) "
              "{ processKeyDeclaration( m_keys, kd, testNode, resolver, executionContext); }"),
          ctor, "KeyTable: a matching node is handed to processKeyDeclaration")
+    # the namespace context of match and use is the one of the xsl:key element, not the one of the instruction that
+    # calls key() first (the `resolver` of the two calls above is this local, not the constructor's parameter)
+    need(lit("const KeyDeclaration::PrefixResolverProxy resolver(kd);") + ".*?" + lit("kd.getMatchPattern()->getMatchScore( testNode, resolver,"),
+         ctor, "KeyTable: match and use are evaluated with the prefix resolver of the declaration")
     # insertion
     need(lit("addIfNotFound( StylesheetExecutionContext& executionContext, MutableNodeRefList& theNodeList, XalanNode* theNode) "
              "{ theNodeList.addNodeInDocOrder(theNode, executionContext); }"), _norm(kt), "addIfNotFound = addNodeInDocOrder")
